@@ -249,8 +249,8 @@ func run(c *vf.Ctx) {
 	}
 	wg.Wait()
 	// free-running stress, plain and -race
-	plainBatches, raceBatches := c.Pick(2, 6), c.Pick(2, 6)
-	plainIters, raceIters := c.Pick(3000, 20000), c.Pick(1500, 10000)
+	plainBatches, raceBatches := c.Pick(4, 8), c.Pick(4, 8)
+	plainIters, raceIters := c.Pick(6000, 60000), c.Pick(3000, 30000)
 	sem := make(chan struct{}, 4)
 	for b := 0; b < plainBatches; b++ {
 		wg.Add(1)
@@ -272,8 +272,8 @@ func run(c *vf.Ctx) {
 	c.Require("variant_concurrent_callers", nCfg/10)
 	c.Require("variant_running_name", nCfg/40)
 	c.Require("variant_run", nCfg/10)
-	c.Require("stress_iterations", plainBatches*plainIters+raceBatches*raceIters)
-	c.Require("stress_calls_overlapping_shutdown", 200)
+	c.Require("stress_iterations", (plainBatches*plainIters+raceBatches*raceIters)*4/5) // a child killed by a defect loses the iterations since its last flush
+	c.Require("stress_calls_overlapping_shutdown", 2000)
 	c.Assume("runtime.Stack(all) snapshots are consistent (stop-the-world); a process in which every goroutine is parked on a channel/sync primitive and no timer exists cannot make progress by itself (the daemon uses no timers and no logger unless DebugLogger is called)")
 	c.Assume("sync/atomic operations are sequentially consistent (logical clock, returned flags)")
 }
